@@ -120,7 +120,13 @@ def _copy_harness(src, dst, profile="model"):
     for the native replay profile append a name -> harness dispatcher instead"""
     t = open(src).read()
     if profile != "native":
-        t = re.sub(r"(?m)^([ \t]*)#\[kani::proof\]\n", lambda m: m.group(0) + STUB_ATTRS, t)
+        def _inject(m):
+            # a harness may bring its own replacement for one of the globally stubbed functions (attribute lines
+            # directly after #[kani::proof]): that global stub is then left out for it
+            follow = re.match(r"(?:[ \t]*#\[[^\n]*\]\n)*", t[m.end():]).group(0)
+            keep = [l for l in STUB_ATTRS.splitlines(True) if l.split("(", 1)[1].split(",", 1)[0] + "," not in follow]
+            return m.group(0) + "".join(keep)
+        t = re.sub(r"(?m)^([ \t]*)#\[kani::proof\]\n", _inject, t)
     else:
         names = []
         for m in HARNESS_FN_RE.finditer(t):
